@@ -78,6 +78,9 @@ fn fmt_kind(stream: &str) -> usize {
     }
 }
 
+/// templates the generated programs include by name (no blocks, no nested includes)
+const INCLUDABLE: [&str; 2] = ["inc", "incdef"];
+
 /// user filters, one per string-like argument type of value/argtypes.rs
 fn add_arg_filters(e: &mut Environment<'static>) {
     e.add_filter("t_string", |s: String| format!("<{}>", s));
@@ -205,7 +208,7 @@ fn enc_value(strict: &Environment, v: &Value, out: &mut String) -> Option<()> {
     Some(())
 }
 
-const NON_CTX_NAMES: [&str; 9] = ["loop", "self", "super", "caller", "varargs", "kwargs", "range", "dict", "namespace"];
+const NON_CTX_NAMES: [&str; 2] = ["self", "super"];
 
 fn enc_instr(strict: &Environment, ins: &Instruction, out: &mut String) {
     use Instruction as I;
@@ -215,7 +218,7 @@ fn enc_instr(strict: &Environment, ins: &Instruction, out: &mut String) {
         I::Emit => out.push_str("Emit"),
         I::StoreLocal(n) => write!(out, "StoreLocal {}", hx(n)).unwrap(),
         I::Lookup(n) => {
-            if NON_CTX_NAMES.contains(n) || *n == "debug" {
+            if NON_CTX_NAMES.contains(n) {
                 write!(out, "Unsupported Lookup-{}", n).unwrap()
             } else {
                 write!(out, "Lookup {}", hx(n)).unwrap()
@@ -235,6 +238,22 @@ fn enc_instr(strict: &Environment, ins: &Instruction, out: &mut String) {
         I::BuildList(None) => out.push_str("BuildListDyn"),
         I::Neg => out.push_str("Neg"),
         I::BuildMap(n) => write!(out, "BuildMap {}", n).unwrap(),
+        I::Div => out.push_str("Binop Div"),
+        I::IntDiv => out.push_str("Binop IntDiv"),
+        I::Rem => out.push_str("Binop Rem"),
+        I::Pow => out.push_str("Binop Pow"),
+        I::BuildKwargs(n) => write!(out, "BuildKwargs {}", n).unwrap(),
+        I::MergeKwargs(n) => write!(out, "MergeKwargs {}", n).unwrap(),
+        I::UnpackList(n) => write!(out, "UnpackList {}", n).unwrap(),
+        I::CallFunction(n, a) if argc(a) >= 0 && *n != "super" => write!(out, "CallFunction {} {}", hx(n), argc(a)).unwrap(),
+        I::CallMethod(n, a) if argc(a) >= 0 => write!(out, "CallMethod {} {}", hx(n), argc(a)).unwrap(),
+        I::CallObject(a) if argc(a) >= 0 => write!(out, "CallObject {}", argc(a)).unwrap(),
+        I::IsUndefined => out.push_str("IsUndefined"),
+        I::Enclose(n) => write!(out, "Enclose {}", hx(n)).unwrap(),
+        I::GetClosure => out.push_str("GetClosure"),
+        I::BuildMacro(n, off, flags) => write!(out, "BuildMacro {} {} {}", hx(n), off, flags).unwrap(),
+        I::Return => out.push_str("Return"),
+        I::Include(ignore) => write!(out, "Include {}", *ignore as u8).unwrap(),
         I::Add => out.push_str("Add"),
         I::Sub => out.push_str("Sub"),
         I::Mul => out.push_str("Mul"),
@@ -253,13 +272,7 @@ fn enc_instr(strict: &Environment, ins: &Instruction, out: &mut String) {
         }
         I::ApplyFilter(n, a, _) if argc(a) >= 0 => write!(out, "ApplyFilter {} {}", hx(n), argc(a)).unwrap(),
         I::PerformTest(n, a, _) if argc(a) >= 0 => write!(out, "PerformTest {} {}", hx(n), argc(a)).unwrap(),
-        I::PushLoop(flags) => {
-            if flags & 2 != 0 {
-                out.push_str("Unsupported PushLoop-recursive")
-            } else {
-                out.push_str("PushLoop")
-            }
-        }
+        I::PushLoop(flags) => write!(out, "PushLoop {}", flags).unwrap(),
         I::Iterate(t) => write!(out, "Iterate {}", t).unwrap(),
         I::PushDidNotIterate => out.push_str("PushDidNotIterate"),
         I::PopFrame => out.push_str("PopFrame"),
@@ -294,7 +307,7 @@ fn enc_instr(strict: &Environment, ins: &Instruction, out: &mut String) {
     }
 }
 
-/// `C @ F <formatter kind 0..3> N <count> <instr>…` (`@` = the context of the preceding `ctx` line) or `-` when
+/// `C @ F <formatter kind 0..3> P <number of codes> (K <hex name|-> N <count> <instr>…)…` (`@` = the context of the preceding `ctx` line) or `-` when
 /// the template does not compile
 fn enc_prog(envs: &Envs, src: &str, ctx: &Value, fmt_kind: usize) -> String {
     let strict = &envs.envs[3];
@@ -309,16 +322,41 @@ fn enc_prog(envs: &Envs, src: &str, ctx: &Value, fmt_kind: usize) -> String {
         }
         // the context is the shared one announced by the `ctx` line
         let _ = ctx;
-        let mut out = String::from("C @");
-        write!(out, " F {}", fmt_kind).unwrap();
-        let mut n = 0u32;
-        let mut body = String::new();
-        while let Some(ins) = compiled.instructions.get(n) {
-            body.push(' ');
-            enc_instr(strict, ins, &mut body);
-            n += 1;
+        let mut codes: Vec<(String, String, u32)> = vec![];
+        let enc_code = |instrs: &minijinja::machinery::Instructions| -> (String, u32, bool) {
+            let mut n = 0u32;
+            let mut body = String::new();
+            let mut includes = false;
+            while let Some(ins) = instrs.get(n) {
+                body.push(' ');
+                includes |= matches!(ins, Instruction::Include(_));
+                enc_instr(strict, ins, &mut body);
+                n += 1;
+            }
+            (body, n, includes)
+        };
+        let (body, n, includes) = enc_code(&compiled.instructions);
+        codes.push(("-".into(), body, n));
+        if includes {
+            // the templates a generated program can include by name
+            for name in INCLUDABLE {
+                let t = strict.get_template(name).ok()?;
+                let c = get_compiled_template(&t);
+                if !c.blocks.is_empty() {
+                    return None;
+                }
+                let (body, n, inner) = enc_code(&c.instructions);
+                if inner {
+                    return None;
+                }
+                codes.push((hx(name), body, n));
+            }
         }
-        write!(out, " N {}{}", n, body).unwrap();
+        let mut out = String::from("C @");
+        write!(out, " F {} P {}", fmt_kind, codes.len()).unwrap();
+        for (name, body, n) in &codes {
+            write!(out, " K {} N {}{}", name, n, body).unwrap();
+        }
         Some(out)
     });
     match r {
@@ -332,6 +370,12 @@ fn emit_ctx(w: &mut impl std::io::Write, envs: &Envs) {
     let mut out = String::new();
     enc_value(&envs.envs[3], &ctx_small(), &mut out).expect("context inside the model domain");
     writeln!(w, "ctx\t{}", out).unwrap();
+}
+
+/// a builtin call: the last field is the `B …` description of the call instead of a program
+fn emit_sig(w: &mut impl std::io::Write, envs: &Envs, stream: &str, id: usize, label: &str, src: &str, ctx: &Value, sig: &str) {
+    let rs: Vec<String> = envs.envs.iter().map(|e| render(e, src, ctx, false)).collect();
+    writeln!(w, "{}\t{}\t{}\t{}\t{}\t{}", stream, id, label, src, rs.join("\t"), sig).unwrap();
 }
 
 fn emit(w: &mut impl std::io::Write, envs: &Envs, stream: &str, id: usize, label: &str, src: &str, ctx: &Value, model: bool) {
@@ -667,6 +711,35 @@ const SUBST: &[(&str, &str)] = &[
     ("au", "a.b"),
 ];
 
+/// how undefined an operand expression of the builtin streams is: u = undefined, s = silent
+/// undefined, n = none, l = a list holding an undefined, d = anything else
+fn kind_of(expr: &str) -> &'static str {
+    match expr {
+        "u" | "a.b" => "u",
+        "(1 if b0)" => "s",
+        "none" | "n" => "n",
+        "[i1, u]" | "[u]" => "l",
+        _ => "d",
+    }
+}
+
+/// `B <kind> <name> <kind of each positional argument> [k]` for the signature stream of the check
+fn sig_field(kind: &str, name: &str, args: &[String], has_kwargs: bool) -> String {
+    let mut s = format!("B {} {}", kind, hx(name));
+    for a in args {
+        s.push(' ');
+        s.push_str(kind_of(a));
+    }
+    if has_kwargs {
+        s.push_str(" k");
+    }
+    s
+}
+
+fn call_case(bi: &B, args: &[String], kwargs: &[(String, String)]) -> (String, String) {
+    (call_src(bi, args, kwargs), sig_field(bi.kind, bi.name, args, !kwargs.is_empty()))
+}
+
 fn call_src(bi: &B, args: &[String], kwargs: &[(String, String)]) -> String {
     let mut rest: Vec<String> = vec![];
     let (recv, pos) = match bi.kind {
@@ -683,18 +756,18 @@ fn call_src(bi: &B, args: &[String], kwargs: &[(String, String)]) -> String {
     }
 }
 
-fn gen_calls(tier: &str, f: &mut dyn FnMut(String, String)) {
+fn gen_calls(tier: &str, f: &mut dyn FnMut(String, (String, String))) {
     for bi in BUILTINS {
         let args: Vec<String> = bi.args.iter().map(|s| s.to_string()).collect();
         let kw: Vec<(String, String)> = bi.kwargs.iter().map(|(k, v)| (k.to_string(), v.to_string())).collect();
         let npos = args.len();
         let n = npos + kw.len();
         // the good call, with and without kwargs
-        f(format!("{}:{}:good", bi.kind, bi.name), call_src(bi, &args, &[]));
+        f(format!("{}:{}:good", bi.kind, bi.name), call_case(bi, &args, &[]));
         if !kw.is_empty() {
-            f(format!("{}:{}:good+kw", bi.kind, bi.name), call_src(bi, &args, &kw));
+            f(format!("{}:{}:good+kw", bi.kind, bi.name), call_case(bi, &args, &kw));
         }
-        let put = |slots: &[(usize, &str)], with_kw: bool| -> String {
+        let put = |slots: &[(usize, &str)], with_kw: bool| -> (String, String) {
             let mut a = args.clone();
             let mut k = kw.clone();
             for (p, s) in slots {
@@ -704,7 +777,7 @@ fn gen_calls(tier: &str, f: &mut dyn FnMut(String, String)) {
             let k_used: Vec<(String, String)> = if with_kw { k } else {
                 k.into_iter().enumerate().filter(|(i, _)| slots.iter().any(|(p, _)| *p == npos + *i)).map(|(_, x)| x).collect()
             };
-            call_src(bi, &a, &k_used)
+            call_case(bi, &a, &k_used)
         };
         for p in 0..n {
             for (sn, se) in SUBST {
@@ -720,7 +793,7 @@ fn gen_calls(tier: &str, f: &mut dyn FnMut(String, String)) {
                     for (sn, se) in &SUBST[..2] {
                         a[p] = se.to_string();
                         if bi.kind != "function" || !a.is_empty() {
-                            f(format!("{}:{}:arity{}:arg{}={}", bi.kind, bi.name, cut, p, sn), call_src(bi, &a, &[]));
+                            f(format!("{}:{}:arity{}:arg{}={}", bi.kind, bi.name, cut, p, sn), call_case(bi, &a, &[]));
                         }
                     }
                 }
@@ -740,13 +813,13 @@ fn gen_calls(tier: &str, f: &mut dyn FnMut(String, String)) {
         // an extra trailing undefined argument
         let mut a = args.clone();
         a.push("u".into());
-        f(format!("{}:{}:extra=u", bi.kind, bi.name), call_src(bi, &a, &[]));
+        f(format!("{}:{}:extra=u", bi.kind, bi.name), call_case(bi, &a, &[]));
         // statement forms
         if bi.kind == "filter" {
             let rest: Vec<String> = args[1..].to_vec();
             let call = if rest.is_empty() { String::new() } else { format!("({})", rest.join(", ")) };
-            f(format!("filter:{}:block", bi.name), format!("[{{% filter {}{} %}}{{{{ u }}}}x{{% endfilter %}}]", bi.name, call));
-            f(format!("filter:{}:setblock", bi.name), format!("[{{% set y | {}{} %}}{{{{ (1 if b0) }}}}x{{% endset %}}{{{{ y }}}}]", bi.name, call));
+            f(format!("filter:{}:block", bi.name), (format!("[{{% filter {}{} %}}{{{{ u }}}}x{{% endfilter %}}]", bi.name, call), "-".to_string()));
+            f(format!("filter:{}:setblock", bi.name), (format!("[{{% set y | {}{} %}}{{{{ (1 if b0) }}}}x{{% endset %}}{{{{ y }}}}]", bi.name, call), "-".to_string()));
         }
     }
 }
@@ -766,7 +839,7 @@ fn all_names() -> Vec<(&'static str, &'static str)> {
     v
 }
 
-fn gen_sweep(tier: &str, f: &mut dyn FnMut(String, String)) {
+fn gen_sweep(tier: &str, f: &mut dyn FnMut(String, (String, String))) {
     let max_arity = if tier == "thorough" { 3 } else { 2 };
     for (kind, name) in all_names() {
         let symbol = SYMBOL_TESTS.contains(&name);
@@ -810,7 +883,14 @@ fn gen_sweep(tier: &str, f: &mut dyn FnMut(String, String)) {
                         }
                     }
                 };
-                f(format!("{}:{}:sweep{}", kind, name, args.len()), src);
+                let sig = if symbol {
+                    "-".to_string()
+                } else {
+                    let mut all: Vec<String> = vec![recv.to_string()];
+                    all.extend(args.iter().map(|x| x.to_string()));
+                    sig_field(kind, name, &all, false)
+                };
+                f(format!("{}:{}:sweep{}", kind, name, args.len()), (src, sig));
             }
         }
     }
@@ -1165,16 +1245,16 @@ fn main() {
                     id += 1;
                 }
             }
-            let mut calls: Vec<(String, String)> = vec![];
-            gen_calls(&tier, &mut |label, src| calls.push((label, src)));
-            for (label, src) in &calls {
-                emit(&mut w, &envs, "call", id, label, src, &big, false);
+            let mut calls: Vec<(String, (String, String))> = vec![];
+            gen_calls(&tier, &mut |label, c| calls.push((label, c)));
+            for (label, (src, sig)) in &calls {
+                emit_sig(&mut w, &envs, "call", id, label, src, &big, sig);
                 id += 1;
             }
-            let mut sweep: Vec<(String, String)> = vec![];
-            gen_sweep(&tier, &mut |label, src| sweep.push((label, src)));
-            for (label, src) in &sweep {
-                emit(&mut w, &envs, "sweep", id, label, src, &big, false);
+            let mut sweep: Vec<(String, (String, String))> = vec![];
+            gen_sweep(&tier, &mut |label, c| sweep.push((label, c)));
+            for (label, (src, sig)) in &sweep {
+                emit_sig(&mut w, &envs, "sweep", id, label, src, &big, sig);
                 id += 1;
             }
             for stream in ["stmt", "stmtv", "stmtc"] {
